@@ -461,6 +461,42 @@ func Run(c *fw.Ctx) {
 		}
 		checkUndecodable(c, id, c.Rand("neg", i))
 	})
+	// (4) accepted and rejected streams alternating on one goroutine: what a
+	// rejected stream leaves behind (scratch rows, pooled buffers, half-applied
+	// parameters) must not reach the next, valid one. The valid stream uses a PNG
+	// predictor whose first row refers to the (all-zero) row above it.
+	mix := c.N(1500, 30000)
+	c.Parallel(8, func(w int) {
+		for k := w; k < mix; k += 8 {
+			id := fmt.Sprintf("mix:%d", k)
+			if !c.Want(id) {
+				continue
+			}
+			r := c.Rand("mix", k)
+			cols, colors := 1+r.Intn(16), 1+r.Intn(3)
+			// rejected: a good first rows, then a row tag >= 5
+			rows := 2 + r.Intn(4)
+			raw := make([]byte, rows*cols*colors)
+			r.Read(raw)
+			rt := make([]int, rows)
+			for i := range rt {
+				rt[i] = r.Intn(5)
+			}
+			p := filt.PNGPredict(raw, cols, colors, rt)
+			p[(1+r.Intn(rows-1))*(cols*colors+1)] = byte(5 + r.Intn(251))
+			bad := &core.Stream{Dict: core.Dict{"Filter": core.Name("FlateDecode"),
+				"DecodeParms": core.Dict{"Predictor": core.Int(15), "Columns": core.Int(cols), "Colors": core.Int(colors)}}, Data: filt.Flate(p, 6)}
+			c.Count("mix_rejected_then_accepted", 1)
+			if got, err := bad.Decode(); err == nil {
+				c.Fail("", "undecodable-accepted/png-tag", id, fmt.Sprintf("undecodable data (png row tag >= 5) decoded to %d bytes without error", len(got)), nil)
+			}
+			// accepted: same geometry, every row Up / Average / Paeth
+			x := make([]byte, (1+r.Intn(4))*cols*colors)
+			r.Read(x)
+			pred := []int{12, 13, 14}[r.Intn(3)]
+			checkRoundTrip(c, id, x, []stage{{Kind: "Fl", Name: "FlateDecode", Pred: pred, Cols: cols, Colors: colors, Parms: "dict"}}, r)
+		}
+	})
 	ex := false
 	c.Exhaustive(ex)
 	c.Extra("exhaustive_subspace", "all strings of length <= 3 over {00,01,7F,80,FF} x every (Columns 1..64, Colors 1..4) tiling them x Predictor {2,10,12,15} + ASCIIHex, ASCII85, Flate, A85>Fl, AHx>A85")
